@@ -33,6 +33,8 @@ structure Cfg (α : Type) where
   freqRaw : α
   sysFreq : α
   sw : List α
+  /-- `TDS.config.check_conn` -/
+  checkConn : Bool := true
 
 /-- outcome of one call of `itm_step` -/
 structure Verdict where
@@ -42,6 +44,8 @@ structure Verdict where
   nan : Bool
   /-- `check_criteria()` returned False after this (accepted) step -/
   crit : Bool
+  /-- somebody (a perturbation file, a model) set `TDS.custom_event` during this step -/
+  custom : Bool := false
 deriving Repr
 
 structure St (α : Type) where
@@ -60,6 +64,12 @@ structure St (α : Type) where
   stamps : List α
   /-- indices into `sw` for which the switch action ran, newest first -/
   fired : List Nat
+  /-- `TDS.custom_event` -/
+  customPending : Bool := false
+  /-- times at which the switch action ran because of a custom event, newest first -/
+  customs : List α := []
+  /-- number of connectivity re-checks made by `do_switch` -/
+  connChecks : Nat := 0
 
 def capFreq (c : Cfg α) : α := if c.sysFreq < c.freqRaw then c.sysFreq else c.freqRaw
 
@@ -130,18 +140,30 @@ def doSwitch (c : Cfg α) (s : St α) : St α :=
   | some x => if s.t == x then { s with fired := s.idx :: s.fired, idx := s.idx + 1 } else s
   | none => s
 
+/-- the second half of `TDS.do_switch`: a pending custom event runs the switch action of every model, and
+any switching (timed or custom) is followed by a connectivity re-check when `check_conn` is set -/
+def customSwitch (c : Cfg α) (s : St α) (switched : Bool) : St α :=
+  { s with customs := if s.customPending then s.t :: s.customs else s.customs,
+           connChecks := if (switched || s.customPending) && c.checkConn then s.connChecks + 1 else s.connChecks,
+           customPending := false }
+
+/-- `TDS.do_switch` as a whole -/
+def doSwitch' (c : Cfg α) (s : St α) : St α :=
+  customSwitch c (doSwitch c s) ((doSwitch c s).idx != s.idx)
+
 /-- the branch of the loop body taken after `itm_step` returned True -/
 def iterOk (c : Cfg α) (s : St α) (v : Verdict) : St α :=
   let s1 := { s with converged := true, niter := v.niter, stamps := s.t :: s.stamps,
-                     busted := s.busted || v.crit }
-  let s3 := calcH c (doSwitch c s1) false
+                     busted := s.busted || v.crit, customPending := s.customPending || v.custom }
+  let s3 := calcH c (doSwitch' c s1) false
   { s3 with t := s3.t + s3.h, kcount := s3.kcount + 1 }
 
 /-- the branch taken after `itm_step` returned False (`keep`: `itm_step` returned early because
 `h == 0` and left `converged`/`niter` untouched) -/
 def iterFail (c : Cfg α) (s : St α) (v : Verdict) (keep : Bool) : St α :=
   let s1 := if keep then { s with t := s.t - s.h }
-            else { s with converged := false, niter := v.niter, t := s.t - s.h, busted := s.busted || v.nan }
+            else { s with converged := false, niter := v.niter, t := s.t - s.h, busted := s.busted || v.nan,
+                          customPending := s.customPending || v.custom }
   let s3 := calcH c s1 false
   if s3.h == 0.0 then { s3 with busted := true } else { s3 with t := s3.t + s3.h }
 
@@ -152,7 +174,7 @@ def guard (c : Cfg α) (s : St α) : Bool := decide (s.t - s.h < c.tf) && !s.bus
 verdict (and without touching `converged`/`niter`).  Afterwards either `busted` is set or `h ≠ 0`, so
 at most one such pass happens in a row. -/
 def pre (c : Cfg α) (s : St α) : St α :=
-  if guard c s && s.h == 0.0 then iterFail c s ⟨false, 0, false, false⟩ true else s
+  if guard c s && s.h == 0.0 then iterFail c s ⟨false, 0, false, false, false⟩ true else s
 
 /-- one pass of the `while` loop body that calls the integrator -/
 def iter (c : Cfg α) (s : St α) (v : Verdict) : St α :=
@@ -175,7 +197,8 @@ def succeed (c : Cfg α) (s : St α) : Bool := !s.busted && s.t == c.tf
 /-- state after `TDS.reset()` and before the `calc_h()` at the end of `TDS.init()` -/
 def preInit (fixt : Bool) : St α :=
   { t := 0.0, h := 0.0, deltat := 0.0, dmin := 0.0, dmax := 0.0, fixt := fixt, idx := 0, niter := 0,
-    converged := false, busted := false, kcount := 0, stamps := [], fired := [] }
+    converged := false, busted := false, kcount := 0, stamps := [], fired := [], customPending := false,
+    customs := [], connChecks := 0 }
 
 /-- state at the first loop head: `TDS.init()` ends with `calc_h()` -/
 def init (c : Cfg α) (fixt : Bool) : St α := calcH c (preInit fixt) false
